@@ -113,6 +113,15 @@ def _histories(checker, reqs, rnd):
             acc = rnd.randint(0, checker.bufferSize)
             checker.bufferSums[r] = (acc, rnd.random() * 3)
         yield f"history{k}"
+    # the same checker serves every sample of a scenario, and soft requirements are switched on and off per sample:
+    # histories in which the activation flags change between calls
+    original = [r.active for r in reqs]
+    for k in range(12):
+        for r in reqs:
+            r.active = rnd.random() < 0.5
+        yield f"history{12 + k} (activation flags redrawn between calls: {[r.active for r in reqs]})"
+    for r, a in zip(reqs, original):
+        r.active = a
 
 
 def _cases(inputs):
@@ -137,11 +146,15 @@ def _cases(inputs):
 def replay_sorted(inputs, clause):
     from scenic.core.sample_checking import WeightedAcceptanceChecker
 
-    for flags, fals, rnd in _cases(inputs):
+    mb = int(inputs["self"].get("bufferSize", 10))
+    sizes = [mb if 1 <= mb < 50 else 10]
+    sizes += [b for b in (10, 100) if b not in sizes]  # the model's buffer size first, then the usual ones
+    for (flags, fals, rnd), bsize in ((c, b) for b in sizes for c in _cases(inputs)):
         reqs = [_Req(i, bool(f["active"]), bool(f["optional"]), fl) for i, (f, fl) in enumerate(zip(flags, fals))]
-        ch = WeightedAcceptanceChecker(bufferSize=max(1, int(inputs["self"].get("bufferSize", 10))) if int(inputs["self"].get("bufferSize", 10)) < 50 else 10)
+        ch = WeightedAcceptanceChecker(bufferSize=bsize)
         ch.setRequirements(reqs)
         for h in _histories(ch, reqs, rnd):
+            h = f"bufferSize {bsize}, {h}"
             out = ch.sortedRequirements()
             for r in reqs:
                 if r.active and not r.optional and r not in out:
